@@ -143,7 +143,7 @@ def _decouple(A, k):
     """Unusual but admissible: some designs have dofs that are exactly decoupled (pure diagonal rows/columns), so the set of
     'diagonal' dofs changes along the history while the matrix class stays the same"""
     n = A.shape[0]
-    idx = {1: [0], 2: [n - 1, n - 2]}.get(k % 3, [])
+    idx = {0: [0], 1: [n - 1, n - 2]}.get(k % 3, [])   # design 0 (final cycle), 3: dof 0; designs 1, 4: the last two; 2, 5: none
     for d in idx:
         dd = A[d, d]
         A[d, :] = 0; A[:, d] = 0; A[d, d] = dd
@@ -205,7 +205,7 @@ class NetCompliance:
     solver in auto / nolda / cg-none / cg-jacobi / cg-sor / cg-ilu / cg-mg ; rhs vec or blk"""
     def __init__(self, solver='auto', rhs='vec', dims=(4, 2, 0)):
         self.solver, self.rhs, self.dims = solver, rhs, dims
-        self.tol = 1e-10 if solver in ('auto', 'nolda') else 2e-7
+        self.tol = 1e-10 if solver in ('auto', 'nolda') else 2e-9   # CG: tol 1e-12 x condition number <= 1e3 (observed differences <= 3e-12)
 
     def _solver(self, dom):
         from pymoto.solvers import CG, DampedJacobi, SOR, ILU, GeometricMultigrid
@@ -244,7 +244,7 @@ class NetEigDense:
     """A [,B] dense -> EigenSolve -> lam, Q.  classes sym / herm / gen / nonherm"""
     def __init__(self, cls, n=6):
         self.cls, self.n = cls, n
-        self.tol = 1e-8
+        self.tol = 1e-10
 
     def build(self):
         sA, sB, sl, sQ = pym.Signal('A'), pym.Signal('B'), pym.Signal('lam'), pym.Signal('Q')
@@ -281,7 +281,7 @@ class NetEigSparse:
     """sparse A [,B] -> EigenSolve(nmodes=3, sigma) -> lam, Q (shift-invert operator and per-mode adjoint solvers are cached objects)"""
     def __init__(self, cls, sigma=None, n=12):
         self.cls, self.sigma, self.n = cls, sigma, n
-        self.tol = 1e-7
+        self.tol = 1e-9     # ARPACK starts from a random vector: converged to machine precision, gaps >= 1 (observed differences <= 3e-13)
 
     def build(self):
         sA, sB, sl, sQ = pym.Signal('A'), pym.Signal('B'), pym.Signal('lam'), pym.Signal('Q')
@@ -350,9 +350,10 @@ def overhang_reference(x, dims, direction, ns, p=40.0, xi0=0.5, eps=1e-4):
 
 
 class NetOverhang:
-    """x -> FilterConv(mixed boundary modes) -> OverhangFilter(direction, nsampling) -> y ; g = y.w   (outputs g and y)"""
-    def __init__(self, dims, direction, ns=None, conv=True):
-        self.dims, self.direction, self.ns, self.conv = dims, direction, ns, conv
+    """x -> FilterConv(mixed boundary modes) -> OverhangFilter(direction, nsampling) -> y ; g = y.w   (outputs g and y);
+    tail=False: no module after the filter, y is a terminal output that the caller seeds with its own (re-used) array"""
+    def __init__(self, dims, direction, ns=None, conv=True, tail=True):
+        self.dims, self.direction, self.ns, self.conv, self.tail = dims, direction, ns, conv, tail
         self.tol = 1e-10
 
     def _dirvec(self):
@@ -373,9 +374,11 @@ class NetOverhang:
             sxf = sx
         kw = {} if self.ns is None else dict(nsampling=self.ns)
         mods.append(pym.OverhangFilter(sxf, sy, domain=dom, direction=self.direction, **kw))
+        sigs = [('x', sx), ('y', sy)] + ([('xf', sxf)] if self.conv else [])
+        if not self.tail:
+            return pym.Network(*mods), [sx], [sy], sigs
         mods.append(pym.EinSum([sy, sw], sg, expression='i,i->'))
-        sigs = [('x', sx), ('w', sw), ('y', sy), ('g', sg)] + ([('xf', sxf)] if self.conv else [])
-        return pym.Network(*mods), [sx, sw], [sg, sy], sigs
+        return pym.Network(*mods), [sx, sw], [sg, sy], sigs + [('w', sw), ('g', sg)]
 
     def design(self, seed, k):
         rng = _rng(seed, k, 15)
@@ -383,7 +386,7 @@ class NetOverhang:
         x = rng.random(nel)
         x[rng.integers(0, nel, 2)] = 0.0     # exact zeros and ones are admissible densities
         x[rng.integers(0, nel, 2)] = 1.0
-        return [x, rng.standard_normal(nel)]
+        return [x, rng.standard_normal(nel)][:2 if self.tail else 1]
 
     def reference(self, vals, seeds):
         return None   # the forward reference needs the filtered field: see post_reference
@@ -970,8 +973,8 @@ def primitive_case(name, arg, seed):
         s = pym.Signal('s', 1.0, sensitivity=zero)
         pristine = dense(val).copy()
         s.add_sensitivity(val)
-        s.add_sensitivity(val)
-        if differs(dense(s.sensitivity), 2 * dense(val), 1e-14):
+        s.add_sensitivity(val.copy() if hasattr(val, 'copy') else val)
+        if differs(dense(s.sensitivity), 2 * pristine, 1e-14):
             bad('two add_sensitivity calls do not give twice the value')
         held = s.sensitivity
         s.reset() if keep is None else s.reset(keep_alloc=keep)
